@@ -1033,4 +1033,1098 @@ void check_state(const Shadow& sh, Ctx& ctx) {
   check_registry(sh, nullptr, ctx, "registry");
 }
 
-// PART4
+// ---------------------------------------------------------------------------
+// Fork probes: quiescent / pause / resume
+// ---------------------------------------------------------------------------
+
+int g_devnull = -1;
+volatile unsigned char* g_progress = nullptr;  // shared with probe children
+
+enum ProbeKind { PR_QUIESCENT, PR_PAUSE_RESUME, PR_RESUME_FORCED, PR_NDEBUG_ALL };
+
+struct ProbeOut {
+  bool exit0 = false;
+  bool sigabrt = false;
+  int progress = 0;
+  int status = 0;
+};
+
+std::uint64_t g_forks = 0;
+
+// The child is a copy of this process, i.e. it holds the replayed wrappers
+// and the registry of the state under test.
+ProbeOut run_probe(ProbeKind kind, [[maybe_unused]] const std::uint16_t* h,
+                   [[maybe_unused]] std::size_t n,
+                   [[maybe_unused]] const Shadow& sh) {
+  *g_progress = 0;
+  ++g_forks;
+  const pid_t c = fork();
+  if (c < 0) {
+    std::perror("fork");
+    _exit(5);
+  }
+  if (c == 0) {
+    signal(SIGABRT, SIG_DFL);
+    dup2(g_devnull, 2);
+    auto& tt = unodb::this_thread();
+    switch (kind) {
+      case PR_QUIESCENT:
+        tt.quiescent();
+        *g_progress = 1;
+        break;
+      case PR_PAUSE_RESUME:
+        tt.qsbr_pause();
+        *g_progress = 1;
+        tt.qsbr_resume();
+        *g_progress = 2;
+        break;
+      case PR_RESUME_FORCED:
+        // A paused thread cannot create a non-null wrapper in an assertion
+        // build (registration asserts !paused), so the state "paused with a
+        // live wrapper" is entered by setting the flag directly.
+        tt.paused = true;
+        *g_progress = 1;
+        tt.qsbr_resume();
+        *g_progress = 2;
+        break;
+      case PR_NDEBUG_ALL: {
+        tt.quiescent();
+        *g_progress = 1;
+        tt.qsbr_pause();
+        *g_progress = 2;
+        tt.qsbr_resume();
+        *g_progress = 3;
+        // Wrappers created while paused, then resume.
+        teardown(sh);
+        tt.qsbr_pause();
+        *g_progress = 4;
+        Shadow tmp;
+        Ctx scratch;
+        replay_real(h, n, tmp, scratch);
+        tt.qsbr_resume();
+        *g_progress = 5;
+        tt.quiescent();
+        *g_progress = 6;
+        break;
+      }
+    }
+    _exit(0);
+  }
+  int st = 0;
+  while (waitpid(c, &st, 0) < 0) {
+    if (errno != EINTR) {
+      std::perror("waitpid");
+      _exit(5);
+    }
+  }
+  ProbeOut r;
+  r.status = st;
+  r.exit0 = WIFEXITED(st) && WEXITSTATUS(st) == 0;
+  r.sigabrt = WIFSIGNALED(st) && WTERMSIG(st) == SIGABRT;
+  r.progress = *g_progress;
+  return r;
+}
+
+std::string probe_detail(const ProbeOut& r, const Shadow& sh) {
+  std::string d = "child ";
+  if (r.exit0)
+    d += "exited 0";
+  else if (r.sigabrt)
+    d += "was killed by SIGABRT";
+  else
+    d += "ended with wait status " + std::to_string(r.status);
+  d += " after " + std::to_string(r.progress) + " accepted call(s); state: " +
+       describe(sh);
+  return d;
+}
+
+// Runs the liveness probes for the state currently held by the real objects.
+// Returns the number of probes (forks).
+std::uint64_t run_probes(const std::uint16_t* h, std::size_t n,
+                         const Shadow& sh, Ctx& ctx) {
+  const bool live = live_nonnull(sh) > 0;
+  std::uint64_t probes = 0;
+#ifndef NDEBUG
+  {
+    ctx.begin_case(h, n, -1, "probe-quiescent");
+    const ProbeOut r = run_probe(PR_QUIESCENT, h, n, sh);
+    ++probes;
+    if (live && !r.sigabrt)
+      ctx.fail(r.exit0 ? "accepted-with-live-wrapper" : "abnormal-exit", false,
+               "quiescent() was not rejected although a non-null wrapper is "
+               "alive",
+               probe_detail(r, sh));
+    if (!live && !(r.exit0 && r.progress == 1))
+      ctx.fail(r.sigabrt ? "rejected-without-live-wrapper" : "abnormal-exit",
+               false,
+               "quiescent() was rejected although no non-null wrapper is alive",
+               probe_detail(r, sh));
+  }
+  {
+    ctx.begin_case(h, n, -1, "probe-pause");
+    const ProbeOut r = run_probe(PR_PAUSE_RESUME, h, n, sh);
+    ++probes;
+    if (live && !(r.sigabrt && r.progress == 0))
+      ctx.fail(r.sigabrt ? "rejected-late" : r.exit0
+                                                 ? "accepted-with-live-wrapper"
+                                                 : "abnormal-exit",
+               false,
+               "qsbr_pause() was not rejected although a non-null wrapper is "
+               "alive",
+               probe_detail(r, sh));
+    if (!live && !(r.exit0 && r.progress == 2)) {
+      ctx.subject = r.progress >= 1 ? "probe-resume" : "probe-pause";
+      ctx.fail(r.sigabrt ? "rejected-without-live-wrapper" : "abnormal-exit",
+               false,
+               "qsbr_pause()/qsbr_resume() was rejected although no non-null "
+               "wrapper is alive",
+               probe_detail(r, sh));
+    }
+  }
+  if (live) {
+    ctx.begin_case(h, n, -1, "probe-resume");
+    const ProbeOut r = run_probe(PR_RESUME_FORCED, h, n, sh);
+    ++probes;
+    if (!(r.sigabrt && r.progress == 1))
+      ctx.fail(r.exit0 ? "accepted-with-live-wrapper" : "abnormal-exit", false,
+               "qsbr_resume() was not rejected although a non-null wrapper is "
+               "alive",
+               probe_detail(r, sh));
+  }
+#else
+  {
+    (void)live;
+    ctx.begin_case(h, n, -1, "probe-ndebug");
+    const ProbeOut r = run_probe(PR_NDEBUG_ALL, h, n, sh);
+    ++probes;
+    if (!(r.exit0 && r.progress == 6))
+      ctx.fail("rejected", false,
+               "quiescent/pause/resume was not accepted in an NDEBUG build",
+               probe_detail(r, sh));
+  }
+#endif
+  return probes;
+}
+
+// ---------------------------------------------------------------------------
+// Serialization and pipes
+// ---------------------------------------------------------------------------
+
+struct Buf {
+  std::vector<std::uint8_t> d;
+  void raw(const void* p, std::size_t n) {
+    const std::size_t old = d.size();
+    d.resize(old + n);
+    std::memcpy(d.data() + old, p, n);
+  }
+  void u8(std::uint8_t v) { d.push_back(v); }
+  void u16(std::uint16_t v) { raw(&v, 2); }
+  void u32(std::uint32_t v) { raw(&v, 4); }
+  void u64(std::uint64_t v) { raw(&v, 8); }
+  void str(const std::string& s) {
+    u32(static_cast<std::uint32_t>(s.size()));
+    raw(s.data(), s.size());
+  }
+};
+
+struct Rd {
+  const std::uint8_t* p;
+  const std::uint8_t* e;
+  void need(std::size_t n) const {
+    if (static_cast<std::size_t>(e - p) < n) {
+      std::fprintf(stderr, "wrap: truncated message\n");
+      _exit(6);
+    }
+  }
+  void raw(void* o, std::size_t n) {
+    need(n);
+    std::memcpy(o, p, n);
+    p += n;
+  }
+  std::uint8_t u8() {
+    std::uint8_t v;
+    raw(&v, 1);
+    return v;
+  }
+  std::uint16_t u16() {
+    std::uint16_t v;
+    raw(&v, 2);
+    return v;
+  }
+  std::uint32_t u32() {
+    std::uint32_t v;
+    raw(&v, 4);
+    return v;
+  }
+  std::uint64_t u64() {
+    std::uint64_t v;
+    raw(&v, 8);
+    return v;
+  }
+  std::string str() {
+    const std::uint32_t n = u32();
+    need(n);
+    std::string s(reinterpret_cast<const char*>(p), n);
+    p += n;
+    return s;
+  }
+};
+
+bool write_all(int fd, const void* p, std::size_t n) {
+  const auto* b = static_cast<const std::uint8_t*>(p);
+  while (n > 0) {
+    const ssize_t w = write(fd, b, n);
+    if (w < 0) {
+      if (errno == EINTR) continue;
+      return false;
+    }
+    b += w;
+    n -= static_cast<std::size_t>(w);
+  }
+  return true;
+}
+
+bool read_all(int fd, void* p, std::size_t n) {
+  auto* b = static_cast<std::uint8_t*>(p);
+  while (n > 0) {
+    const ssize_t r = read(fd, b, n);
+    if (r < 0) {
+      if (errno == EINTR) continue;
+      return false;
+    }
+    if (r == 0) return false;
+    b += r;
+    n -= static_cast<std::size_t>(r);
+  }
+  return true;
+}
+
+void put_viols(Buf& out, const Ctx& ctx) {
+  out.u64(ctx.total);
+  out.u64(ctx.registry_checks);
+  out.u32(static_cast<std::uint32_t>(ctx.viols.size()));
+  for (const Viol& v : ctx.viols) {
+    out.u16(static_cast<std::uint16_t>(v.hist.size()));
+    for (auto o : v.hist) out.u16(o);
+    out.str(v.sig);
+    out.str(v.what);
+    out.str(v.detail);
+  }
+}
+
+// ---------------------------------------------------------------------------
+// Worker process
+// ---------------------------------------------------------------------------
+
+// What the worker is executing right now, for the SIGABRT handler: an abort
+// inside a wrapper operation (a library assertion) is attributed to the
+// history being executed.
+constexpr int HMAX = 256;
+std::uint16_t g_abort_hist[HMAX];
+volatile sig_atomic_t g_abort_hlen = 0;  // ops of the state history
+volatile sig_atomic_t g_abort_op = -1;   // op being applied on top, or -1
+int g_abort_fd = -1;
+
+struct AbortRec {
+  std::uint32_t hlen;
+  std::int32_t op;
+  std::uint32_t step;
+  std::uint16_t hist[HMAX];
+};
+
+extern "C" void on_sigabrt(int) {
+  AbortRec rec;
+  std::memset(&rec, 0, sizeof rec);
+  rec.hlen = static_cast<std::uint32_t>(g_abort_hlen);
+  rec.op = static_cast<std::int32_t>(g_abort_op);
+  rec.step = static_cast<std::uint32_t>(g_cur_step);
+  for (std::uint32_t k = 0; k < rec.hlen && k < HMAX; ++k)
+    rec.hist[k] = g_abort_hist[k];
+  const char tag = 'A';
+  (void)!write(g_abort_fd, &tag, 1);
+  (void)!write(g_abort_fd, &rec, sizeof rec);
+  _exit(3);
+}
+
+void set_current(const std::uint16_t* h, std::size_t n, int op) {
+  g_abort_hlen = 0;
+  for (std::size_t k = 0; k < n && k < HMAX; ++k) g_abort_hist[k] = h[k];
+  g_abort_hlen = static_cast<sig_atomic_t>(std::min<std::size_t>(n, HMAX));
+  g_abort_op = op;
+}
+
+struct Counters {
+  std::uint64_t transitions = 0, traces = 0, probes = 0, forks = 0;
+};
+
+constexpr std::uint32_t PRUNED = 0xFFFFFFFFu;
+
+// Executes one transition (history h, then op) with all oracles.  Leaves the
+// storage scrubbed.  Returns the successor code, or PRUNED.
+std::uint32_t do_transition(const std::uint16_t* h, std::size_t n, int opi,
+                            Ctx& ctx, Counters& cnt) {
+  const Op& op = g_ops[static_cast<std::size_t>(opi)];
+  Shadow sb;
+  Ctx scratch;
+  set_current(h, n, -1);
+  replay_real(h, n, sb, scratch);
+  ++cnt.traces;
+  set_current(h, n, opi);
+  ctx.begin_case(h, n, opi, kind_name[op.k]);
+  Shadow sa = sb;
+  apply_model(op, sa);
+  apply_real(op, sb, sa, ctx);
+  if (!adopt(sa))
+    ctx.fail("span-size", true,
+             "a span with a null start reports a size outside the universe",
+             describe(sa));
+  check_state(sa, ctx);
+  ++cnt.transitions;
+  if (ctx.step_viols > 0) {
+    const bool prune = ctx.value_bad;
+    abandon();
+    return prune ? PRUNED : encode(sa);
+  }
+  // Tear down through the real destructors; the registry must end up empty.
+  // This is the history continued by one destroy per live slot.
+  teardown(sa);
+  if (!registry_empty()) {
+    std::vector<std::uint16_t> full(h, h + n);
+    full.push_back(static_cast<std::uint16_t>(opi));
+    for (int i = 0; i < gP; ++i)
+      if (sa.p[i].st != 0)
+        full.push_back(static_cast<std::uint16_t>(
+            g_op_by_name.at("d" + std::to_string(i))));
+    for (int i = 0; i < gS; ++i)
+      if (sa.s[i].st != 0)
+        full.push_back(static_cast<std::uint16_t>(
+            g_op_by_name.at("Sx" + std::to_string(i))));
+    ctx.begin_case(full.data(), full.size(), -1, "destroy");
+    check_registry(Shadow{}, nullptr, ctx, "registry");
+    abandon();
+  }
+  return encode(sa);
+}
+
+// Memory the probe children never need is kept out of them
+// (MADV_DONTFORK): the cost of fork() grows with the resident pages.
+std::uint8_t* map_private(std::size_t n) {
+  if (n == 0) n = 1;
+  void* m = mmap(nullptr, n, PROT_READ | PROT_WRITE,
+                 MAP_PRIVATE | MAP_ANONYMOUS, -1, 0);
+  if (m == MAP_FAILED) _exit(5);
+  madvise(m, n, MADV_DONTFORK);
+  return static_cast<std::uint8_t*>(m);
+}
+
+void worker_expand(Rd& in, Buf& out, std::uint8_t* sent) {
+  const bool probes_on = in.u8() != 0;
+  const std::uint32_t count = in.u32();
+  Ctx ctx;
+  Counters cnt;
+  g_forks = 0;
+  std::vector<std::uint16_t> h;
+  for (std::uint32_t s = 0; s < count; ++s) {
+    const std::uint32_t code = in.u32();
+    const std::uint16_t hlen = in.u16();
+    h.resize(hlen);
+    for (auto& o : h) o = in.u16();
+    const Shadow sh0 = decode(code);
+
+    if (probes_on) {
+      Shadow sh;
+      Ctx scratch;
+      set_current(h.data(), h.size(), -1);
+      replay_real(h.data(), h.size(), sh, scratch);
+      ++cnt.traces;
+      if (encode(sh) != code) {
+        std::fprintf(stderr, "wrap: replay of a stored history diverged\n");
+        _exit(7);
+      }
+      cnt.probes += run_probes(h.data(), h.size(), sh, ctx);
+      teardown(sh);
+      if (!registry_empty()) abandon();
+    }
+
+    const std::size_t npos = out.d.size();
+    out.u32(0);
+    std::uint32_t emitted = 0;
+    for (std::size_t oi = 0; oi < g_ops.size(); ++oi) {
+      if (!enabled(g_ops[oi], sh0)) continue;
+      const std::uint32_t succ =
+          do_transition(h.data(), h.size(), static_cast<int>(oi), ctx, cnt);
+      if (succ == PRUNED) continue;
+      if (sent[succ >> 3] & (1u << (succ & 7))) continue;
+      sent[succ >> 3] =
+          static_cast<std::uint8_t>(sent[succ >> 3] | (1u << (succ & 7)));
+      out.u16(static_cast<std::uint16_t>(oi));
+      out.u32(succ);
+      ++emitted;
+    }
+    std::memcpy(&out.d[npos], &emitted, 4);
+  }
+  cnt.forks = g_forks;
+  out.u64(cnt.transitions);
+  out.u64(cnt.traces);
+  out.u64(cnt.probes);
+  out.u64(cnt.forks);
+  put_viols(out, ctx);
+}
+
+// Replays one history step by step with every oracle after every step and the
+// liveness probes after every prefix.  Stops at the first violating step.
+void worker_replay(Rd& in, Buf& out) {
+  const std::uint16_t hlen = in.u16();
+  std::vector<std::uint16_t> h(hlen);
+  for (auto& o : h) o = in.u16();
+  Ctx ctx;
+  Counters cnt;
+  g_forks = 0;
+  Shadow sh;
+  std::uint8_t status = 0;
+  std::uint32_t bad_step = 0;
+  scrub_all();
+  ++cnt.traces;
+  bool stopped = false;
+  set_current(h.data(), 0, -1);
+  cnt.probes += run_probes(h.data(), 0, sh, ctx);
+  for (std::size_t k = 0; k < h.size() && !stopped; ++k) {
+    const Op& op = g_ops[h[k]];
+    if (!enabled(op, sh)) {
+      status = 1;
+      bad_step = static_cast<std::uint32_t>(k);
+      abandon();
+      stopped = true;
+      break;
+    }
+    set_current(h.data(), k, h[k]);
+    g_cur_step = static_cast<sig_atomic_t>(k);
+    ctx.begin_case(h.data(), k, h[k], kind_name[op.k]);
+    const Shadow sb = sh;
+    apply_model(op, sh);
+    apply_real(op, sb, sh, ctx);
+    if (!adopt(sh))
+      ctx.fail("span-size", true,
+               "a span with a null start reports a size outside the universe",
+               describe(sh));
+    check_state(sh, ctx);
+    ++cnt.transitions;
+    if (ctx.step_viols > 0) {
+      abandon();
+      stopped = true;
+      break;
+    }
+    set_current(h.data(), k + 1, -1);
+    cnt.probes += run_probes(h.data(), k + 1, sh, ctx);
+    if (ctx.total > 0) {
+      abandon();
+      stopped = true;
+    }
+  }
+  if (!stopped) {
+    teardown(sh);
+    if (!registry_empty()) {
+      ctx.begin_case(h.data(), h.size(), -1, "destroy");
+      check_registry(Shadow{}, nullptr, ctx, "registry");
+      abandon();
+    }
+  }
+  cnt.forks = g_forks;
+  out.u8(status);
+  out.u32(bad_step);
+  out.str(describe(sh));
+  out.u32(static_cast<std::uint32_t>(live_nonnull(sh)));
+  out.u64(cnt.transitions);
+  out.u64(cnt.traces);
+  out.u64(cnt.probes);
+  out.u64(cnt.forks);
+  put_viols(out, ctx);
+}
+
+[[noreturn]] void worker_main(int in_fd, int out_fd) {
+  g_abort_fd = out_fd;
+  struct sigaction sa;
+  std::memset(&sa, 0, sizeof sa);
+  sa.sa_handler = on_sigabrt;
+  sigaction(SIGABRT, &sa, nullptr);
+  void* shm = mmap(nullptr, 4096, PROT_READ | PROT_WRITE,
+                   MAP_SHARED | MAP_ANONYMOUS, -1, 0);
+  if (shm == MAP_FAILED) _exit(5);
+  g_progress = static_cast<volatile unsigned char*>(shm);
+  scrub_all();
+  std::uint8_t* const sent = map_private(total_codes() / 8 + 1);
+  for (;;) {
+    char cmd;
+    if (!read_all(in_fd, &cmd, 1)) _exit(0);
+    if (cmd == 'Q') _exit(0);
+    std::uint64_t len;
+    if (!read_all(in_fd, &len, 8)) _exit(6);
+    std::uint8_t* const payload = map_private(len);
+    if (len && !read_all(in_fd, payload, len)) _exit(6);
+    Rd rd{payload, payload + len};
+    Buf out;
+    if (cmd == 'E')
+      worker_expand(rd, out, sent);
+    else if (cmd == 'P')
+      worker_replay(rd, out);
+    else
+      _exit(6);
+    const char tag = 'R';
+    const std::uint64_t olen = out.d.size();
+    if (!write_all(out_fd, &tag, 1) || !write_all(out_fd, &olen, 8) ||
+        !write_all(out_fd, out.d.data(), out.d.size()))
+      _exit(6);
+    munmap(payload, len == 0 ? 1 : len);
+  }
+}
+
+// ---------------------------------------------------------------------------
+// Master
+// ---------------------------------------------------------------------------
+
+struct Worker {
+  pid_t pid = -1;
+  int to = -1;    // master writes
+  int from = -1;  // master reads
+};
+
+std::vector<Worker> g_workers;
+
+void spawn_workers(int n) {
+  for (int w = 0; w < n; ++w) {
+    int a[2], b[2];
+    if (pipe(a) != 0 || pipe(b) != 0) {
+      std::perror("pipe");
+      std::exit(2);
+    }
+    const pid_t c = fork();
+    if (c < 0) {
+      std::perror("fork");
+      std::exit(2);
+    }
+    if (c == 0) {
+      close(a[1]);
+      close(b[0]);
+      for (const Worker& o : g_workers) {
+        close(o.to);
+        close(o.from);
+      }
+      worker_main(a[0], b[1]);
+    }
+    close(a[0]);
+    close(b[1]);
+    Worker wk;
+    wk.pid = c;
+    wk.to = a[1];
+    wk.from = b[0];
+    g_workers.push_back(wk);
+  }
+}
+
+void stop_workers() {
+  for (const Worker& w : g_workers) {
+    const char q = 'Q';
+    (void)!write(w.to, &q, 1);
+    close(w.to);
+  }
+  for (const Worker& w : g_workers) {
+    int st;
+    waitpid(w.pid, &st, 0);
+    close(w.from);
+  }
+  g_workers.clear();
+}
+
+[[noreturn]] void infra(const std::string& msg) {
+  std::fprintf(stderr, "wrap: infrastructure error: %s\n", msg.c_str());
+  for (const Worker& w : g_workers) kill(w.pid, SIGKILL);
+  std::exit(2);
+}
+
+void send_cmd(const Worker& w, char cmd, const Buf& b) {
+  const std::uint64_t len = b.d.size();
+  if (!write_all(w.to, &cmd, 1) || !write_all(w.to, &len, 8) ||
+      !write_all(w.to, b.d.data(), b.d.size()))
+    infra("cannot write to a worker");
+}
+
+// Returns false (and fills rec) if the worker aborted inside the library.
+bool recv_result(const Worker& w, std::vector<std::uint8_t>& payload,
+                 AbortRec& rec) {
+  char tag;
+  if (!read_all(w.from, &tag, 1)) infra("a worker died without a report");
+  if (tag == 'A') {
+    if (!read_all(w.from, &rec, sizeof rec)) infra("truncated abort record");
+    return false;
+  }
+  if (tag != 'R') infra("bad tag from a worker");
+  std::uint64_t len;
+  if (!read_all(w.from, &len, 8)) infra("truncated result");
+  payload.resize(len);
+  if (len && !read_all(w.from, payload.data(), len)) infra("truncated result");
+  return true;
+}
+
+std::string universe_tag() {
+  return "L" + std::to_string(gL) + "P" + std::to_string(gP) + "S" +
+         std::to_string(gS);
+}
+
+std::string hist_string(const std::vector<std::uint16_t>& h) {
+  std::string r = universe_tag() + "/";
+  for (std::size_t k = 0; k < h.size(); ++k) {
+    if (k) r += ",";
+    r += g_ops[h[k]].name;
+  }
+  return r;
+}
+
+std::string jesc(const std::string& s) {
+  std::string r;
+  for (const char ch : s) {
+    const auto c = static_cast<unsigned char>(ch);
+    if (c == '"' || c == '\\') {
+      r += '\\';
+      r += ch;
+    } else if (c < 0x20) {
+      char b[8];
+      std::snprintf(b, sizeof b, "\\u%04x", c);
+      r += b;
+    } else {
+      r += ch;
+    }
+  }
+  return r;
+}
+
+struct Totals {
+  std::uint64_t transitions = 0, traces = 0, probes = 0, forks = 0;
+  std::uint64_t registry_checks = 0;
+  std::uint64_t viol_total = 0;
+  std::vector<Viol> viols;
+};
+
+void take_viols(Rd& rd, Totals& t) {
+  t.viol_total += rd.u64();
+  t.registry_checks += rd.u64();
+  const std::uint32_t nv = rd.u32();
+  for (std::uint32_t k = 0; k < nv; ++k) {
+    Viol v;
+    v.hist.resize(rd.u16());
+    for (auto& o : v.hist) o = rd.u16();
+    v.sig = rd.str();
+    v.what = rd.str();
+    v.detail = rd.str();
+    if (t.viols.size() < VIOL_CAP) t.viols.push_back(std::move(v));
+  }
+}
+
+void take_counters(Rd& rd, Totals& t) {
+  t.transitions += rd.u64();
+  t.traces += rd.u64();
+  t.probes += rd.u64();
+  t.forks += rd.u64();
+}
+
+void abort_violation(const AbortRec& rec, Totals& t) {
+  Viol v;
+  const bool in_replay = rec.step < rec.hlen;
+  const std::uint32_t n = in_replay ? rec.step + 1 : rec.hlen;
+  v.hist.assign(rec.hist, rec.hist + std::min<std::uint32_t>(n, HMAX));
+  if (!in_replay && rec.op >= 0)
+    v.hist.push_back(static_cast<std::uint16_t>(rec.op));
+  const std::string subj =
+      v.hist.empty() ? std::string("startup")
+                     : std::string(kind_name[g_ops[v.hist.back()].k]);
+  v.sig = "C17/" + subj + "/library-abort";
+  v.what =
+      "the process aborted (library assertion) while executing the last "
+      "operation of the history";
+  v.detail = "SIGABRT inside a wrapper operation of a legal history";
+  ++t.viol_total;
+  if (t.viols.size() < VIOL_CAP) t.viols.push_back(std::move(v));
+}
+
+struct Options {
+  std::string tier = "quick";
+  std::string out;
+  std::string only;
+  std::string replay;
+  std::string config_label;
+  std::string universe;  // optional override of the tier's L<l>P<p>S<s>
+  int threads = 0;
+  bool has_replay = false;
+};
+
+#ifdef NDEBUG
+constexpr const char* BUILD_CONFIG = "ndebug";
+#else
+constexpr const char* BUILD_CONFIG = "debug";
+#endif
+
+std::string viols_json(const Totals& t) {
+  std::string j = "  \"violations\": [";
+  for (std::size_t k = 0; k < t.viols.size(); ++k) {
+    const Viol& v = t.viols[k];
+    j += k ? ",\n    " : "\n    ";
+    j += "{\"what\": \"" + jesc(v.what) + "\", \"signature\": \"" +
+         jesc(v.sig) + "\", \"replay_arg\": \"" + jesc(hist_string(v.hist)) +
+         "\", \"detail\": {\"config\": \"" + BUILD_CONFIG +
+         "\", \"info\": \"" + jesc(v.detail) + "\"}}";
+  }
+  j += t.viols.empty() ? "],\n" : "\n  ],\n";
+  j += "  \"violations_total\": " + std::to_string(t.viol_total) + "\n";
+  return j;
+}
+
+const char* const RULE =
+    "breadth-first search to the fixpoint over abstract states (contents of "
+    "the pointer slots and span slots: storage raw / null / (buffer, offset[, "
+    "length])); every enabled operation of the alphabet is applied to real "
+    "qsbr_ptr / qsbr_ptr_span objects rebuilt by replaying the shortest "
+    "history of the state on scrubbed storage; after every transition all "
+    "live objects are compared with shadow raw pointers / std::spans and (in "
+    "assertion builds) the thread's active pointer multiset with the live "
+    "non-null wrappers; every state is probed in forked children with "
+    "quiescent(), qsbr_pause()+qsbr_resume() and qsbr_resume(); non-trivial = "
+    "state with at least one live non-null wrapper";
+
+void write_out(const Options& opt, const std::string& body) {
+  FILE* f = std::fopen(opt.out.c_str(), "w");
+  if (f == nullptr) infra("cannot open --out file");
+  std::fputs(body.c_str(), f);
+  std::fclose(f);
+}
+
+struct Node {
+  std::uint32_t code = 0;
+  std::uint32_t parent = 0;
+  std::uint16_t op = 0;
+  std::uint16_t depth = 0;
+};
+
+std::vector<std::uint16_t> history_of(const std::vector<Node>& nodes,
+                                      std::uint32_t id) {
+  std::vector<std::uint16_t> h(nodes[id].depth);
+  std::uint32_t cur = id;
+  for (std::size_t k = h.size(); k > 0; --k) {
+    h[k - 1] = nodes[cur].op;
+    cur = nodes[cur].parent;
+  }
+  return h;
+}
+
+int run_bfs(const Options& opt) {
+  const bool probes_on = opt.only != "bfs";
+  const std::uint32_t ncodes = total_codes();
+  std::vector<std::int32_t> visited(ncodes, -1);
+  std::vector<Node> nodes;
+  nodes.push_back(Node{});
+  visited[0] = 0;
+  std::vector<std::uint32_t> frontier{0};
+  Totals tot;
+  bool aborted = false;
+  std::uint32_t max_depth = 0;
+  std::uint64_t nontrivial = 0;
+  const std::size_t W = g_workers.size();
+
+  while (!frontier.empty() && !aborted) {
+    const std::size_t n = frontier.size();
+    const std::size_t chunk = (n + W - 1) / W;
+    std::vector<std::pair<std::size_t, std::size_t>> ranges(W);
+    for (std::size_t w = 0; w < W; ++w) {
+      const std::size_t lo = std::min(n, w * chunk);
+      const std::size_t hi = std::min(n, lo + chunk);
+      ranges[w] = {lo, hi};
+      Buf b;
+      b.u8(probes_on ? 1 : 0);
+      b.u32(static_cast<std::uint32_t>(hi - lo));
+      for (std::size_t k = lo; k < hi; ++k) {
+        const std::uint32_t id = frontier[k];
+        b.u32(nodes[id].code);
+        const auto h = history_of(nodes, id);
+        b.u16(static_cast<std::uint16_t>(h.size()));
+        for (auto o : h) b.u16(o);
+      }
+      send_cmd(g_workers[w], 'E', b);
+    }
+    std::vector<std::uint32_t> next;
+    for (std::size_t w = 0; w < W; ++w) {
+      std::vector<std::uint8_t> payload;
+      AbortRec rec;
+      if (!recv_result(g_workers[w], payload, rec)) {
+        abort_violation(rec, tot);
+        aborted = true;
+        continue;  // still drain the other workers of this level
+      }
+      Rd rd{payload.data(), payload.data() + payload.size()};
+      for (std::size_t k = ranges[w].first; k < ranges[w].second; ++k) {
+        const std::uint32_t id = frontier[k];
+        const std::uint32_t ns = rd.u32();
+        for (std::uint32_t s = 0; s < ns; ++s) {
+          const std::uint16_t op = rd.u16();
+          const std::uint32_t succ = rd.u32();
+          if (succ >= ncodes) infra("successor code out of range");
+          if (visited[succ] >= 0) continue;
+          visited[succ] = static_cast<std::int32_t>(nodes.size());
+          Node nd;
+          nd.code = succ;
+          nd.parent = id;
+          nd.op = op;
+          nd.depth = static_cast<std::uint16_t>(nodes[id].depth + 1);
+          max_depth = std::max<std::uint32_t>(max_depth, nd.depth);
+          next.push_back(static_cast<std::uint32_t>(nodes.size()));
+          nodes.push_back(nd);
+        }
+      }
+      take_counters(rd, tot);
+      take_viols(rd, tot);
+    }
+    frontier.swap(next);
+  }
+  // A worker that aborted is gone; the others are stopped normally.
+  stop_workers();
+
+  for (const Node& nd : nodes) nontrivial += live_nonnull(decode(nd.code)) > 0;
+  const bool exhaustive = !aborted;
+  const std::uint64_t states = nodes.size();
+
+  std::string j = "{\n";
+  j += "  \"property\": \"C17\",\n";
+  j += "  \"tier\": \"" + jesc(opt.tier) + "\",\n";
+  j += std::string("  \"config\": \"") + BUILD_CONFIG + "\",\n";
+  j += std::string("  \"exhaustive\": ") + (exhaustive ? "true" : "false") +
+       ",\n";
+  j += "  \"evaluations\": " + std::to_string(tot.transitions + tot.probes) +
+       ",\n";
+  j += "  \"distinct_nontrivial\": " + std::to_string(nontrivial) + ",\n";
+  j += "  \"states\": " + std::to_string(states) + ",\n";
+  j += "  \"transitions\": " + std::to_string(tot.transitions) + ",\n";
+  j += "  \"traces_validated_against_impl\": " + std::to_string(tot.traces) +
+       ",\n";
+  j += "  \"rule\": \"" + jesc(RULE) + "\",\n";
+  j += "  \"samples\": [";
+  {
+    const std::uint32_t ids[3] = {static_cast<std::uint32_t>(states / 3),
+                                  static_cast<std::uint32_t>(2 * states / 3),
+                                  static_cast<std::uint32_t>(states - 1)};
+    for (int k = 0; k < 3; ++k) {
+      const auto h = history_of(nodes, ids[k]);
+      const Shadow sh = decode(nodes[ids[k]].code);
+      j += k ? ",\n    " : "\n    ";
+      j += "{\"history\": \"" + jesc(hist_string(h)) + "\", \"state\": \"" +
+           jesc(describe(sh)) + "\", \"depth\": " + std::to_string(h.size()) +
+           ", \"live_nonnull_wrappers\": " + std::to_string(live_nonnull(sh)) +
+           "}";
+    }
+  }
+  j += "\n  ],\n";
+  j += "  \"parts\": [\n";
+  j += "    {\"name\": \"value-semantics BFS (real objects vs shadow raw "
+       "pointers)\", \"size\": " +
+       std::to_string(states) +
+       ", \"checks\": " + std::to_string(tot.transitions) +
+       ", \"exhaustive\": " + (exhaustive ? "true" : "false") + "},\n";
+  j += "    {\"name\": \"registry comparison (active_ptrs vs live non-null "
+       "wrappers; compiled out under NDEBUG)\", \"size\": " +
+       std::to_string(states) +
+       ", \"checks\": " + std::to_string(tot.registry_checks) +
+       ", \"exhaustive\": " + (exhaustive ? "true" : "false") + "},\n";
+  j += "    {\"name\": \"fork probes (quiescent, pause+resume, resume)\", "
+       "\"size\": " +
+       std::to_string(probes_on ? states : 0) +
+       ", \"checks\": " + std::to_string(tot.probes) +
+       ", \"forks\": " + std::to_string(tot.forks) + ", \"exhaustive\": " +
+       (exhaustive && probes_on ? "true" : "false") + "}\n";
+  j += "  ],\n";
+  j += "  \"extra\": {\"universe\": \"" + universe_tag() +
+       "\", \"buffer_length\": " + std::to_string(gL) +
+       ", \"pointer_slots\": " + std::to_string(gP) +
+       ", \"span_slots\": " + std::to_string(gS) +
+       ", \"alphabet_size\": " + std::to_string(g_ops.size()) +
+       ", \"state_code_space\": " + std::to_string(ncodes) +
+       ", \"max_bfs_depth\": " + std::to_string(max_depth) +
+       ", \"config_label\": \"" + jesc(opt.config_label) + "\"},\n";
+  j += viols_json(tot);
+  j += "}\n";
+  write_out(opt, j);
+  return 0;
+}
+
+bool parse_replay(const std::string& arg, std::vector<std::uint16_t>& h) {
+  // L<l>P<p>S<s>/op,op,...
+  int l = 0, p = 0, s = 0, used = 0;
+  if (std::sscanf(arg.c_str(), "L%dP%dS%d/%n", &l, &p, &s, &used) != 3 ||
+      used == 0)
+    return false;
+  if (l < 1 || l > LMAX || p < 1 || p > PMAX || s < 0 || s > SMAX) return false;
+  gL = l;
+  gP = p;
+  gS = s;
+  build_span_tab();
+  build_ops();
+  std::string rest = arg.substr(static_cast<std::size_t>(used));
+  std::size_t pos = 0;
+  while (pos < rest.size()) {
+    std::size_t e = rest.find(',', pos);
+    if (e == std::string::npos) e = rest.size();
+    const std::string tok = rest.substr(pos, e - pos);
+    const auto it = g_op_by_name.find(tok);
+    if (it == g_op_by_name.end()) return false;
+    h.push_back(static_cast<std::uint16_t>(it->second));
+    pos = e + 1;
+  }
+  return h.size() < HMAX;
+}
+
+int run_replay(const Options& opt, const std::vector<std::uint16_t>& h) {
+  Buf b;
+  b.u16(static_cast<std::uint16_t>(h.size()));
+  for (auto o : h) b.u16(o);
+  send_cmd(g_workers[0], 'P', b);
+  std::vector<std::uint8_t> payload;
+  AbortRec rec;
+  Totals tot;
+  std::string state = "(aborted)";
+  std::uint32_t live = 0;
+  if (!recv_result(g_workers[0], payload, rec)) {
+    abort_violation(rec, tot);
+  } else {
+    Rd rd{payload.data(), payload.data() + payload.size()};
+    const std::uint8_t status = rd.u8();
+    const std::uint32_t bad = rd.u32();
+    if (status != 0)
+      infra("replay argument is not a legal history (operation " +
+            std::to_string(bad) + " is not enabled)");
+    state = rd.str();
+    live = rd.u32();
+    take_counters(rd, tot);
+    take_viols(rd, tot);
+  }
+  stop_workers();
+  std::string j = "{\n";
+  j += "  \"property\": \"C17\",\n";
+  j += "  \"tier\": \"" + jesc(opt.tier) + "\",\n";
+  j += std::string("  \"config\": \"") + BUILD_CONFIG + "\",\n";
+  j += "  \"exhaustive\": true,\n";
+  j += "  \"evaluations\": " + std::to_string(tot.transitions + tot.probes) +
+       ",\n";
+  j += "  \"distinct_nontrivial\": " + std::to_string(live > 0 ? 1 : 0) + ",\n";
+  j += "  \"states\": " + std::to_string(h.size() + 1) + ",\n";
+  j += "  \"transitions\": " + std::to_string(tot.transitions) + ",\n";
+  j += "  \"traces_validated_against_impl\": " + std::to_string(tot.traces) +
+       ",\n";
+  j += "  \"rule\": \"replay of one history: all value and registry oracles "
+       "after every operation, liveness probes after every prefix\",\n";
+  j += "  \"samples\": [{\"history\": \"" + jesc(hist_string(h)) +
+       "\", \"state\": \"" + jesc(state) + "\"}],\n";
+  j += "  \"parts\": [{\"name\": \"replay\", \"size\": 1, \"checks\": " +
+       std::to_string(tot.transitions + tot.probes) +
+       ", \"forks\": " + std::to_string(tot.forks) +
+       ", \"exhaustive\": true}],\n";
+  j += viols_json(tot);
+  j += "}\n";
+  write_out(opt, j);
+  return 0;
+}
+
+}  // namespace
+
+int main(int argc, char** argv) {
+  Options opt;
+  for (int a = 1; a < argc; ++a) {
+    const std::string k = argv[a];
+    const auto val = [&]() -> std::string {
+      if (a + 1 >= argc) {
+        std::fprintf(stderr, "wrap: missing value for %s\n", k.c_str());
+        std::exit(2);
+      }
+      return argv[++a];
+    };
+    if (k == "--tier")
+      opt.tier = val();
+    else if (k == "--out")
+      opt.out = val();
+    else if (k == "--threads")
+      opt.threads = std::atoi(val().c_str());
+    else if (k == "--only")
+      opt.only = val();
+    else if (k == "--replay-arg") {
+      opt.replay = val();
+      opt.has_replay = true;
+    } else if (k == "--config")
+      opt.config_label = val();
+    else if (k == "--universe")
+      opt.universe = val();
+    else {
+      std::fprintf(stderr, "wrap: unknown option %s\n", k.c_str());
+      return 2;
+    }
+  }
+  if (opt.out.empty() || (opt.tier != "quick" && opt.tier != "thorough")) {
+    std::fprintf(stderr,
+                 "usage: wrap --tier quick|thorough --out <file> [--threads N] "
+                 "[--only bfs] [--replay-arg S] [--config debug|ndebug] "
+                 "[--universe L<l>P<p>S<s>]\n");
+    return 2;
+  }
+  if (!opt.config_label.empty() && opt.config_label != BUILD_CONFIG)
+    std::fprintf(stderr,
+                 "wrap: note: --config %s but this binary was built as %s\n",
+                 opt.config_label.c_str(), BUILD_CONFIG);
+  if (opt.config_label.empty()) opt.config_label = BUILD_CONFIG;
+
+  struct rlimit rl {
+    0, 0
+  };
+  setrlimit(RLIMIT_CORE, &rl);
+  signal(SIGPIPE, SIG_IGN);
+  g_devnull = open("/dev/null", O_WRONLY);
+  if (g_devnull < 0) {
+    std::perror("/dev/null");
+    return 2;
+  }
+
+  std::vector<std::uint16_t> replay_hist;
+  if (opt.has_replay) {
+    if (!parse_replay(opt.replay, replay_hist)) {
+      std::fprintf(stderr, "wrap: cannot parse --replay-arg\n");
+      return 2;
+    }
+  } else {
+    if (opt.tier == "quick") {
+      gL = 3;
+      gP = 2;
+      gS = 2;
+    } else {
+      gL = 4;
+      gP = 3;
+      gS = 2;
+    }
+    if (!opt.universe.empty()) {
+      int l = 0, p = 0, s = 0;
+      if (std::sscanf(opt.universe.c_str(), "L%dP%dS%d", &l, &p, &s) != 3 ||
+          l < 1 || l > LMAX || p < 1 || p > PMAX || s < 0 || s > SMAX) {
+        std::fprintf(stderr, "wrap: bad --universe (L1-4 P1-3 S0-2)\n");
+        return 2;
+      }
+      gL = l;
+      gP = p;
+      gS = s;
+    }
+    build_span_tab();
+    build_ops();
+  }
+
+  int threads = opt.threads;
+  if (threads <= 0) {
+    threads = static_cast<int>(std::thread::hardware_concurrency());
+    if (threads <= 0) threads = 4;
+    // Workers mostly wait for their probe children: oversubscribe.
+    threads *= 2;
+    if (threads > 64) threads = 64;
+  }
+  if (opt.has_replay) threads = 1;
+  spawn_workers(threads);
+  return opt.has_replay ? run_replay(opt, replay_hist) : run_bfs(opt);
+}
